@@ -994,12 +994,30 @@ func handSetHunk(r *Rng, cfg GenCfg, mset bool) (*Val, string) {
 		t = VObj("k", arr, "z", VNum(1))
 		path = "K\"6b " + el
 	}
-	if r.Chance(1, 12) {
-		// the addressed value is not an array
+	if r.Chance(1, 8) {
+		// the addressed value is not an array: a scalar, null, or an OBJECT — and half of the time the hunk removes
+		// exactly that value (and adds at most one), the shape of a whole-value replacement
+		var nv *Val
+		switch r.Intn(4) {
+		case 0:
+			nv = VObj("x", VNum(1))
+		case 1:
+			nv = VObj()
+		case 2:
+			nv = VNull()
+		default:
+			nv = cfg.scalar(r)
+		}
 		if t == arr {
-			t = cfg.scalar(r)
+			t = nv
 		} else {
-			t.O["k"] = cfg.scalar(r)
+			t.O["k"] = nv
+		}
+		if r.Chance(1, 2) {
+			rem = []*Val{nv.Clone()}
+			if len(add) > 1 {
+				add = add[:1]
+			}
 		}
 	}
 	w := fmt.Sprintf("( s %s | | %s | %s | )", path, ws(rem), ws(add))
